@@ -10,7 +10,7 @@ import (
 
 // C12 producer: kind "resume".
 //  (a) transparency: sessions cut into segments by Discard+reopen / Finalize+reopen, compared byte
-//      for byte with the uninterrupted session: exhaustive interleavings of a 5-put list with <= 3
+//      for byte with the uninterrupted session: exhaustive c12Interleavings of a 5-put list with <= 3
 //      interruptions for 6 option rows x 2 front-ends, plus random sessions;
 //  (b) mismatching reopen: every single-field mismatch (roots / version / data padding), incl. the
 //      adversarial block whose data embeds a CARv1 header.
@@ -30,7 +30,7 @@ func c12Rows() []wOpts {
 	return []wOpts{d, r2, r3, r4, r5, r6}
 }
 
-func encHeader(roots []cid.Cid) []byte {
+func c12EncHeader(roots []cid.Cid) []byte {
 	var buf bytes.Buffer
 	if err := carv1.WriteHeader(&carv1.CarHeader{Roots: roots, Version: 1}, &buf); err != nil {
 		panic(err)
@@ -38,8 +38,8 @@ func encHeader(roots []cid.Cid) []byte {
 	return buf.Bytes()
 }
 
-// hdrTabAt: header-oracle entries for what Resume can read at the given offsets of file
-func hdrTabAt(file []byte, offs ...uint64) Val {
+// crHdrTabAt: header-oracle entries for what Resume can read at the given offsets of file
+func crHdrTabAt(file []byte, offs ...uint64) Val {
 	tab := VL{}
 	for _, off := range offs {
 		if off <= uint64(len(file)) {
@@ -51,16 +51,16 @@ func hdrTabAt(file []byte, offs ...uint64) Val {
 	return tab
 }
 
-func dataBase(o wOpts) uint64 {
+func crDataBase(o wOpts) uint64 {
 	if o.v1 {
 		return 0
 	}
 	return 51 + o.dpad
 }
 
-func emitSegs(c *Ctx, kind uint64, o wOpts, roots []cid.Cid, segs []seg, last []Blk, plain Val, what string) {
-	in := VL{VT("segs"), VN(kind), o.val(), rootsVal(roots), segsVal(segs), blksVal(last), VL{}}
-	obs := runSegsImpl(c.Work, kind, o, roots, segs, last, plain)
+func c12EmitSegs(c *Ctx, kind uint64, o wOpts, roots []cid.Cid, segs []crSeg, last []Blk, plain Val, what string) {
+	in := VL{VT("segs"), VN(kind), o.val(), crRootsVal(roots), crSegsVal(segs), blksVal(last), VL{}}
+	obs := c12RunSegsImpl(c.Work, kind, o, roots, segs, last, plain)
 	n := 0
 	for _, s := range segs {
 		n += len(s.blks)
@@ -70,22 +70,22 @@ func emitSegs(c *Ctx, kind uint64, o wOpts, roots []cid.Cid, segs []seg, last []
 	c.Count("segs:interruptions=" + string(rune('0'+len(segs))))
 }
 
-func emitMismatch(c *Ctx, kind uint64, o wOpts, roots []cid.Cid, puts []Blk, cut string, o2 wOpts, roots2 []cid.Cid, what string) {
-	file, ok := fileBeforeReopen(c.Work, kind, o, roots, puts, cut)
+func c12EmitMismatch(c *Ctx, kind uint64, o wOpts, roots []cid.Cid, puts []Blk, cut string, o2 wOpts, roots2 []cid.Cid, what string) {
+	file, ok := c12FileBeforeReopen(c.Work, kind, o, roots, puts, cut)
 	if !ok {
 		return
 	}
-	tab := hdrTabAt(file, 0, dataBase(o2), dataBase(o))
-	in := VL{VT("mismatch"), VN(kind), o.val(), rootsVal(roots), blksVal(puts), VT(cut), o2.val(), rootsVal(roots2), tab}
-	obs := runMismatchImpl(c.Work, kind, o, roots, puts, cut, o2, roots2)
+	tab := crHdrTabAt(file, 0, crDataBase(o2), crDataBase(o))
+	in := VL{VT("mismatch"), VN(kind), o.val(), crRootsVal(roots), blksVal(puts), VT(cut), o2.val(), crRootsVal(roots2), tab}
+	obs := c12RunMismatchImpl(c.Work, kind, o, roots, puts, cut, o2, roots2)
 	c.Emit("resume", in, obs, len(puts) >= 1)
 	c.Count("mismatch:" + what)
 	c.Count("mismatch:cut=" + cut)
 }
 
-// interleavings: all ways to place <= maxCuts interruptions (Discard / Finalize) in the n+1 gaps of
+// c12Interleavings: all ways to place <= maxCuts interruptions (Discard / Finalize) in the n+1 gaps of
 // an n-put list (several interruptions may share a gap)
-func interleavings(n, maxCuts int) [][][2]int { // list of [(gap, kind)]
+func c12Interleavings(n, maxCuts int) [][][2]int { // list of [(gap, kind)]
 	var out [][][2]int
 	var rec func(start int, cur [][2]int)
 	rec = func(start int, cur [][2]int) {
@@ -103,15 +103,15 @@ func interleavings(n, maxCuts int) [][][2]int { // list of [(gap, kind)]
 	return out
 }
 
-func buildSegs(puts []Blk, cuts [][2]int) ([]seg, []Blk) {
-	var segs []seg
+func c12BuildSegs(puts []Blk, cuts [][2]int) ([]crSeg, []Blk) {
+	var segs []crSeg
 	prev := 0
 	for _, ct := range cuts {
 		kind := "discard"
 		if ct[1] == 1 {
 			kind = "finalize"
 		}
-		segs = append(segs, seg{cut: kind, blks: puts[prev:ct[0]]})
+		segs = append(segs, crSeg{cut: kind, blks: puts[prev:ct[0]]})
 		prev = ct[0]
 	}
 	return segs, puts[prev:]
@@ -119,12 +119,12 @@ func buildSegs(puts []Blk, cuts [][2]int) ([]seg, []Blk) {
 
 func init() {
 	register("c12", func(c *Ctx) {
-		// ---- (a1) exhaustive interleavings -------------------------------------------------
+		// ---- (a1) exhaustive c12Interleavings -------------------------------------------------
 		nPuts, maxCuts := 4, 3
 		if c.Thorough {
 			nPuts = 5
 		}
-		ils := interleavings(nPuts, maxCuts)
+		ils := c12Interleavings(nPuts, maxCuts)
 		for ri, o := range c12Rows() {
 			r := c.R.Fork()
 			// the put list of this row: a duplicate, an identity block and a cross-codec twin included
@@ -140,13 +140,13 @@ func init() {
 				roots = nil
 			}
 			for _, kind := range []uint64{0, 1} {
-				plain, ok := plainFinal(c.Work, kind, o, roots, puts)
+				plain, ok := c12PlainFinal(c.Work, kind, o, roots, puts)
 				if !ok {
 					continue
 				}
 				for _, cuts := range ils {
-					segs, last := buildSegs(puts, cuts)
-					emitSegs(c, kind, o, roots, segs, last, plain, "exhaustive")
+					segs, last := c12BuildSegs(puts, cuts)
+					c12EmitSegs(c, kind, o, roots, segs, last, plain, "exhaustive")
 				}
 			}
 		}
@@ -159,7 +159,7 @@ func init() {
 			alpha := genBlocks(r, 2+r.Intn(5), genOpts{identity: true, maxData: 0, big: c.Thorough && r.Chance(10)})
 			roots := genRoots(r, alpha, true)
 			var all []Blk
-			var segs []seg
+			var segs []crSeg
 			nseg := r.Intn(5)
 			for s := 0; s < nseg; s++ {
 				var bl []Blk
@@ -167,18 +167,18 @@ func init() {
 					bl = append(bl, pick(r, alpha))
 				}
 				all = append(all, bl...)
-				segs = append(segs, seg{cut: pick(r, []string{"discard", "finalize"}), blks: bl})
+				segs = append(segs, crSeg{cut: pick(r, []string{"discard", "finalize"}), blks: bl})
 			}
 			var last []Blk
 			for j := r.Intn(4); j > 0; j-- {
 				last = append(last, pick(r, alpha))
 			}
 			all = append(all, last...)
-			plain, ok := plainFinal(c.Work, kind, o, roots, all)
+			plain, ok := c12PlainFinal(c.Work, kind, o, roots, all)
 			if !ok {
 				continue
 			}
-			emitSegs(c, kind, o, roots, segs, last, plain, "random")
+			c12EmitSegs(c, kind, o, roots, segs, last, plain, "random")
 		}
 		// ---- (b) mismatching reopen ------------------------------------------------------------
 		nBase := 6 * c.Scale
@@ -215,7 +215,7 @@ func init() {
 						rv = append(rv, dup)
 					}
 					for _, r2 := range rv {
-						emitMismatch(c, kind, o, roots, puts, cut, o, r2, "roots")
+						c12EmitMismatch(c, kind, o, roots, puts, cut, o, r2, "roots")
 					}
 					// the file has a duplicated root, the caller names another one in its place
 					if len(roots) >= 2 {
@@ -223,12 +223,12 @@ func init() {
 						fr[1] = fr[0]
 						req := append([]cid.Cid{}, fr...)
 						req[1] = other
-						emitMismatch(c, kind, o, fr, puts, cut, o, req, "roots-file-has-duplicates")
+						c12EmitMismatch(c, kind, o, fr, puts, cut, o, req, "roots-file-has-duplicates")
 					}
 					// version
 					o2 := o
 					o2.v1 = !o.v1
-					emitMismatch(c, kind, o, roots, puts, cut, o2, roots, "version")
+					c12EmitMismatch(c, kind, o, roots, puts, cut, o2, roots, "version")
 					// padding
 					if !o.v1 {
 						for _, p := range []uint64{0, 1, 7, 59, 1413} {
@@ -237,7 +237,7 @@ func init() {
 							}
 							o3 := o
 							o3.dpad = p
-							emitMismatch(c, kind, o, roots, puts, cut, o3, roots, "padding")
+							c12EmitMismatch(c, kind, o, roots, puts, cut, o3, roots, "padding")
 						}
 					}
 				}
@@ -259,7 +259,7 @@ func init() {
 				filler = nil
 			}
 			roots := []cid.Cid{rootBlk.Cid}
-			data := append(append([]byte{}, filler...), encHeader(roots)...)
+			data := append(append([]byte{}, filler...), c12EncHeader(roots)...)
 			adv := Blk{mkCid(1, 0x55, mh.SHA2_256, -1, data), data}
 			pre := []Blk{}
 			if i > 0 && r.Bool() {
@@ -268,12 +268,12 @@ func init() {
 			puts := append(append([]Blk{}, pre...), adv)
 			// offset of the embedded header in the payload
 			pl := refPayload(roots, puts)
-			off := uint64(len(pl) - len(encHeader(roots)))
+			off := uint64(len(pl) - len(c12EncHeader(roots)))
 			for _, kind := range []uint64{0, 1} {
 				for _, cut := range []string{"discard", "finalize"} {
 					o2 := o
 					o2.dpad = o.dpad + off
-					emitMismatch(c, kind, o, roots, puts, cut, o2, roots, "padding-adversarial")
+					c12EmitMismatch(c, kind, o, roots, puts, cut, o2, roots, "padding-adversarial")
 				}
 			}
 		}
